@@ -120,6 +120,8 @@ def run_stream(res, pid, specs, epoch_times=None, spaces=('lc', 'bc'), max_state
             case['k_first'] = True      # enumerate the states first, then read the rate matrices last epoch first
         for w in sp:
             case['rewards_' + w] = default_rewards(spec, w, pops, n)
+        if spec.get('prelude'):
+            case['prelude'] = spec['prelude']
         cases.append(case)
     chunks = [cases[i::C.NCPU] for i in range(C.NCPU)]
     chunks = [c for c in chunks if c]
